@@ -23,6 +23,8 @@ from collections import Counter, OrderedDict
 
 import numpy as np
 
+from . import reach
+
 ROOT = os.environ.get("NSSMON_ROOT") or os.path.dirname(os.path.dirname(os.path.abspath(__file__)))
 REPO = os.environ.get("NSS_REPO", "/repo")
 BUILD = os.path.join(ROOT, ".build", REPO.replace("/", "_"))
@@ -191,6 +193,7 @@ class Ctx:
             "distinct": self.distinct.export(),
             "inconclusive": self.inconclusive,
             "worst": self.worst,
+            "reach": reach.export(),
         }
 
     def merge_partial(self, p):
@@ -216,6 +219,7 @@ class Ctx:
         self.inconclusive.extend(p["inconclusive"])
         for k, (v, t) in p["worst"].items():
             self.track_worst(k, v, t)
+        reach.merge(p.get("reach", ()))
 
     # ---- finish --------------------------------------------------------------------
     def finish(self, rule, assumptions, extra_cov=None, exhaustive=False):
@@ -277,6 +281,18 @@ class Ctx:
             cov["exhaustive"] = True
         if extra_cov:
             cov.update(jsonable(extra_cov))
+        if reach.start():
+            cov["reach"] = reach.report(anchor_files(self.pid))
+            try:  # full hit set for tools/reach_gaps.py (git-ignored work file, not evidence)
+                os.makedirs(os.path.join(WORK, "reach"), exist_ok=True)
+                with open(os.path.join(WORK, "reach", f"{self.pid}.{self.tier}.json"), "w") as f:
+                    json.dump(reach.export(), f)
+            except Exception:
+                pass
+            if cov["reach"]["anchored_function_body_lines"] > 0 and cov["reach"]["anchored_lines_executed"] == 0 and rc == 0 and self.only is None:
+                rc = 2
+                lines.append(f"INCONCLUSIVE property={self.pid} reason=reach monitor: no line of the anchored source files was executed in-process")
+                cov["verdict"] = "inconclusive"
         if rc == 0 and (evaluations < 1 or nd < 2 or not cov["samples"]):
             rc = 2
             lines.append(f"INCONCLUSIVE property={self.pid} reason=run observed too little (evaluations={evaluations}, distinct={nd}, samples={len(cov['samples'])})")
@@ -305,6 +321,18 @@ class Ctx:
         )
         sys.stdout.flush()
         return rc
+
+
+def anchor_files(pid):
+    try:
+        with open(os.path.join(ROOT, "properties.jsonl")) as f:
+            for ln in f:
+                p = json.loads(ln)
+                if p["id"] == pid:
+                    return list(p["anchors"]["files"])
+    except Exception:
+        pass
+    return []
 
 
 def load_known():
